@@ -39,12 +39,12 @@ type jMut struct {
 }
 
 var jKinds = []string{"delete", "null", "zero", "negative", "huge", "float", "string", "empty-string", "short-string", "long-string", "bool",
-	"empty-array", "null-in-array", "big-array", "empty-object", "object", "array-of-objects", "rename", "nested", "truncate-b64", "bad-b64", "duplicate-element", "number-edge"}
+	"empty-array", "null-in-array", "big-array", "empty-object", "object", "array-of-objects", "rename", "nested", "truncate-b64", "bad-b64", "duplicate-element", "number-edge", "text"}
 
 // innerKinds: mutation kinds used for the JSON document carried inside an operation's payload (weighted towards values
 // that pass decoding and reach the handler's own logic)
 var innerKinds = []string{"number-edge", "number-edge", "number-edge", "null", "delete", "truncate-b64", "bad-b64", "empty-string", "short-string", "zero", "negative",
-	"huge", "string", "empty-array", "duplicate-element", "null-in-array", "bool"}
+	"huge", "string", "empty-array", "duplicate-element", "null-in-array", "bool", "text", "text"}
 
 func genJMuts(rt *rapid.T, max int) []jMut {
 	k := rapid.IntRange(1, max).Draw(rt, "nmut")
@@ -136,6 +136,12 @@ func mutateJSON(doc []byte, m jMut, depth int) ([]byte, bool) {
 		set("ab")
 	case "long-string":
 		set(strings.Repeat("A", 1<<uint(8+m.A%9)))
+	case "text":
+		// a string stays a string, but becomes an awkward (valid) text: long non-ASCII names, format verbs, control characters
+		if _, isString := cur.(string); !isString {
+			return nil, false
+		}
+		set(awkwardTexts[m.A%len(awkwardTexts)])
 	case "bool":
 		set(m.A%2 == 0)
 	case "empty-array":
